@@ -23,12 +23,15 @@ class PureFunction(object):
         self._allobjparams = self._get_all_obj_params_init()
         self._uniq = Uniquifier(self._allobjparams)
         self._cur_objparams = self._uniq.get_unique_objs()
+        self._cur_allobjparams = self._allobjparams
         self._fcntocall = fcntocall
 
-        # restore stack stores list of (objparams, identical)
-        # everytime the objparams are set, it will store the old objparams
-        # and indication if the old and new objparams are identical
-        self._restore_stack: List[Tuple[List, bool]] = []
+        # restore stack stores list of (objparams, identical, allobjparams)
+        # everytime the objparams are set, it will store the old objparams,
+        # indication if the old and new objparams are identical, and the tensor
+        # that every declared name held (names that shared a tensor when this
+        # wrapper was made do not necessarily share it anymore)
+        self._restore_stack: List[Tuple[List, bool, List]] = []
 
     def __call__(self, *params):
         return self._fcntocall(*params)
@@ -49,20 +52,22 @@ class PureFunction(object):
             # the owner of the object may have given it other tensors since this
             # wrapper was created or last used: compare with (and later restore)
             # what the object holds now, not what it held then
-            self._cur_objparams = self._uniq.get_unique_objs(self._get_all_obj_params_init())
+            self._cur_allobjparams = self._get_all_obj_params_init()
+            self._cur_objparams = self._uniq.get_unique_objs(self._cur_allobjparams)
         identical = _check_identical_objs(objparams, self._cur_objparams)
-        self._restore_stack.append((self._cur_objparams, identical))
+        self._restore_stack.append((self._cur_objparams, identical, self._cur_allobjparams))
         if not identical:
             allobjparams = self._uniq.map_unique_objs(objparams)
             self._set_all_obj_params(allobjparams)
             self._cur_objparams = list(objparams)
+            self._cur_allobjparams = allobjparams
 
     def restore_objparams(self):
-        old_objparams, identical = self._restore_stack.pop(-1)
+        old_objparams, identical, old_allobjparams = self._restore_stack.pop(-1)
         if not identical:
-            allobjparams = self._uniq.map_unique_objs(old_objparams)
-            self._set_all_obj_params(allobjparams)
+            self._set_all_obj_params(old_allobjparams)
             self._cur_objparams = old_objparams
+            self._cur_allobjparams = old_allobjparams
 
     @contextmanager
     def useobjparams(self, objparams: List):
